@@ -475,6 +475,10 @@ func (ck *Check) lemmaTexts(x *Exec, names []string) map[string]string {
 			ck.engineErr = append(ck.engineErr, "unknown lemma "+n)
 			continue
 		}
+		if lm.NoAssume {
+			ck.dataFact(n, lm)
+			continue
+		}
 		st := &State{heaps: map[string]Term{}, names: map[string]Val{}, entry: &Snapshot{heaps: map[string]Term{}, names: map[string]Val{}}}
 		env := &Env{x: x, st: st, vars: map[string]Val{}}
 		t := x.trBool(env, lm.Body)
